@@ -68,11 +68,11 @@ def replay(prop, path):
 
 RT = {
     # prop: (mode, quick cases, quick secs, thorough cases, thorough secs)
-    "C01": ("c01", 48000, 40, 800000, 420),
-    "C04": ("c04", 150000, 40, 2000000, 300),
-    "C06": ("c06", 100000, 40, 1500000, 300),
-    "C10": ("c10", 160000, 40, 2500000, 300),
-    "C14": ("c14", 120000, 40, 2000000, 300),
+    "C01": ("c01", 48000, 40, 2400000, 900),
+    "C04": ("c04", 150000, 40, 6000000, 600),
+    "C06": ("c06", 100000, 40, 6000000, 600),
+    "C10": ("c10", 160000, 40, 8000000, 600),
+    "C14": ("c14", 120000, 40, 8000000, 600),
 }
 
 RT_RULE = {
@@ -131,7 +131,7 @@ GEN = {
                 rule="files written from generated programs and files from the independent encoder in exotic layouts (tame coordinates incl. +-0, attribute subsets, invalid-state patterns incl. out-of-set values injected by renaming an extension attribute in the XML, unit-quaternion poses) x ALL 64 option vectors; each simple point is compared with models::simple_point(raw point, descriptor, options); non-trivial = point cloud with >=1 point run under the 64 vectors; distinct = distinct attribute subsets observed",
                 distinct=lambda r: len(r.nums.get("attr_subset", ())), evaluations=lambda r: r.stats.get("option_vectors_run", 0),
                 assumptions=["only unit quaternions; derived spherical coordinates are taken from the un-posed Cartesian value", "points whose coordinates are non-finite are not judged under a pose (inf*0 differs between matrix and quaternion form)", "numeric values of normalised colour/intensity are left to C13; C05 checks presence/absence and un-normalised values exactly"]),
-    "C13": dict(workload="simple", extra=["--mode", "c13"], quick=(200000, 40), thorough=(3000000, 400), both=True,
+    "C13": dict(workload="simple", extra=["--mode", "c13"], quick=(200000, 40), thorough=(12000000, 600), both=True,
                 rule="point clouds whose intensity/colour attributes take every data type (single/double open/bounded, integer, scaled integer of widths 0..64, degenerate) x 10 limit classes (absent, complete same type, complete mixed, partial via XML line removal, equal, reversed, extreme, non-finite, complete other type, tiny/subnormal width) x sorted value ladders x 4 settings of the two normalisation switches; non-trivial = (type class, limit class, switch) cell in which delivered values were checked; distinct = number of such distinct cells",
                 distinct=lambda r: len([k for k in r.cover if k.startswith("cell:")]), evaluations=lambda r: r.stats.get("clouds", 0),
                 assumptions=["expected value = clamp((v-min)/(max-min)) in f64 with halved operands, tolerance 2 ulp(f32) + 2e-7", "when limits are complete but of mixed/other type either candidate range is accepted; the invariants ([0,1], no NaN, monotone) are always required", "a reader that refuses unusable limits (reversed, non-finite) when the iterator is created is not a C13 matter"]),
@@ -148,18 +148,18 @@ GEN = {
                 extra_cov=lambda r: {"calls_monitored": r.stats.get("calls_monitored", 0) + r.stats.get("iterator_steps_monitored", 0), "max_peak_bytes_in_one_call": r.stats.get("max_peak_bytes_per_call", 0), "max_peak_over_input_size": r.stats.get("max_peak_over_input_x1000", 0) / 1000.0,
                                      "max_device_reads_in_one_call": r.stats.get("max_device_reads_per_call", 0), "max_device_bytes_in_one_call": r.stats.get("max_device_read_bytes_per_call", 0), "items_yielded": r.stats.get("raw_items_yielded", 0), "slow_cases_over_2s": r.stats.get("slow_cases_over_2s", 0), "max_case_millis": r.stats.get("max_case_millis", 0)},
                 assumptions=["liveness is restated as bounded progress per call; wall clock is never a verdict (watchdog hits are inconclusive unless the case still does not return alone within 300 s)", "budget constants are generous on purpose: roxmltree needs ~50-100 bytes per XML token and a 64 KiB packet of 1-bit values expands 128x"]),
-    "C15": dict(workload="crash", extra=[], quick=(2500, 60), thorough=(120000, 900), both=False,
+    "C15": dict(workload="crash", extra=[], quick=(2500, 60), thorough=(300000, 900), both=False,
                 rule="small writer programs (1-4 sections) run once on a recording device; for EVERY prefix of the recorded device writes and cut positions {1,8,16,24,32,33,34,40,47,48,49,512,1019..1023, every byte <48 for writes at offset 0, 2 random} inside the next write, the crash image (issue order, zero-filled gaps) is opened: images holding no byte written by the top-level finalize call must be rejected, accepted images must list exactly the completed file's content and every read must be Err or equal; plus the writer dropped without finalize after every item (optionally abandoning the last section writer); non-trivial = crash image built and judged; distinct = distinct program shapes (each contributes all its prefixes x cuts)",
                 distinct=lambda r: len(r.nums.get("program_shape", ())), evaluations=lambda r: r.stats.get("images_built", 0),
                 extra_cov=lambda r: {"programs": r.stats.get("programs", 0), "images_rejected": r.stats.get("images_rejected", 0), "images_accepted_and_equal": r.stats.get("images_accepted_and_equal", 0), "write_kind_x_cut_class_cells": {k[4:]: v for k, v in r.cover.items() if k.startswith("cut:")}, "exhaustive": False, "exhaustive_part": "all prefixes of the device write sequence of every generated program"},
                 assumptions=["writes reach the device in issue order (no reordering is generated)", "the recorder is validated per program: replaying all recorded writes must reproduce the completed file"]),
-    "C16": dict(workload="fault", extra=[], quick=(5000, 60), thorough=(60000, 900), both=False,
+    "C16": dict(workload="fault", extra=[], quick=(5000, 60), thorough=(300000, 900), both=False,
                 rule="small writer programs and their read suites: (a) short-transfer schedules for reads and writes independently (1 byte, alternating, fixed k, random, random with ErrorKind::Interrupted; 4 per direction quick / 16 thorough) must give byte-identical files and identical read results; (b) ONE injected device error at EVERY device operation index (read/write/seek/flush; kinds Other, UnexpectedEof/WriteZero, write returning Ok(0)) of the writer program and of the reader suite: the public call in progress (identified by the M-DEV trace) must return Err, never panic or Ok; Ok from top-level finalize implies the device image equals the fault-free file; non-trivial = fault or schedule run; distinct = distinct program shapes",
                 distinct=lambda r: len(r.nums.get("program_shape", ())), evaluations=lambda r: r.stats.get("writer_fault_runs", 0) + r.stats.get("reader_fault_runs", 0) + r.stats.get("schedules_write", 0) + r.stats.get("schedules_read", 0),
                 extra_cov=lambda r: {"writer_fault_runs": r.stats.get("writer_fault_runs", 0), "reader_fault_runs": r.stats.get("reader_fault_runs", 0), "calls_observed_returning_err": r.stats.get("writer_calls_returned_err", 0) + r.stats.get("reader_calls_returned_err", 0), "faults_during_drop_exempt": r.stats.get("writer_fault_in_drop_exempt", 0),
                                      "fault_cells": {k: v for k, v in r.cover.items() if k.startswith(("writer-fault:", "reader-fault:"))}, "exhaustive": False, "exhaustive_part": "every device operation index of every generated program and read suite"},
                 assumptions=["errors swallowed in Drop have no return value and are exempt", "a read returning Ok(0) while data exists violates the Read contract and is not injected; write returning Ok(0) is", "faults do not transfer partial data (torn transfers are C15's and C17's domain)"]),
-    "C17": dict(workload="history", extra=[], quick=(40000, 60), thorough=(600000, 900), both=False,
+    "C17": dict(workload="history", extra=[], quick=(40000, 60), thorough=(2000000, 900), both=False,
                 rule="files with 2-4 point clouds and 2-4 blobs (intact / one damaged data page / damaged section header / damaged blob header); random sequences of 5..40 operations {raw iterate k in {0,1,half,all+2} then drop, simple iterate k with 4 option vectors, blob, descriptors} on ONE reader over a device that in half the cases delivers short reads and in half the cases returns one transient error; every result is compared with the memoised result of the same operation on a fresh reader; non-trivial = sequence executed; distinct = distinct (sequence, damage class) identities",
                 distinct=lambda r: len(r.nums.get("sequence_identity", ())), evaluations=lambda r: r.stats.get("sequences", 0),
                 extra_cov=lambda r: {"operations": r.stats.get("operations", 0), "ops_failed": r.stats.get("ops_failed", 0), "ops_equal_after_earlier_failure": r.stats.get("ops_equal_after_earlier_failure", 0), "ops_hit_by_transient_device_error": r.stats.get("ops_with_transient_error", 0), "op_kind_pairs": {k[5:]: v for k, v in r.cover.items() if k.startswith("pair:")}},
@@ -322,7 +322,7 @@ def c19(prop, tier, seed):
     res = Result()
     notes = {}
     try:
-        cases, secs = (6000, 60) if tier == "quick" else (300000, 900)
+        cases, secs = (6000, 60) if tier == "quick" else (900000, 900)
         b = build("checked")
         extra = []
         enc = encoder_files(wd, seed, 40 if tier == "quick" else 600)
@@ -392,7 +392,7 @@ def c02(prop, tier, seed):
     try:
         files_dir = os.path.join(wd, "files")
         os.makedirs(files_dir)
-        cases, secs = (4000, 40) if tier == "quick" else (80000, 400)
+        cases, secs = (4000, 40) if tier == "quick" else (240000, 600)
         b = build("checked")
         res.merge(run_shards(b, "roundtrip", ["--mode", "c02", "--filesdir", files_dir], cases, secs, seed, tier, wd, "export", prop))
         pairs = [(f, f[:-4] + ".intent.json") for f in sorted(glob.glob(os.path.join(files_dir, "*.e57")))]
@@ -599,7 +599,7 @@ def c18(prop, tier, seed):
     try:
         b = build("checked")
         # (a) foreign-namespace insertions (independent encoder) -> reader dumps of baseline and variant must agree
-        n = 1200 if tier == "quick" else 40000
+        n = 1200 if tier == "quick" else 120000
         lst, metas = orc.produce(os.path.join(wd, "pairs"), seed, n)
         r, obs = run_dump(b, lst, wd, "dump", seed, tier, prop)
         res.merge(r)
